@@ -200,6 +200,7 @@ int flush_pubsub_msgs(void *data, const char *key, void *value) {
             evt_priv_t *msg = new_evt(mm->sub);
             if (msg && flushed) {
                 msg->evt.ps_evt = &mm->msg;
+                msg->evt.userdata = mm->sub ? mm->sub->userptr : NULL;
                 m_queue_enqueue(flushed, msg);
                 continue;
             }
